@@ -30,9 +30,12 @@ def space(kind, n=2):
 
 
 class FRecipe(object):
-    def __init__(self, name, build, spaces, kind, classes=(), pre=None, n=2, note=''):
+    def __init__(self, name, build, spaces, kind, classes=(), pre=None, n=2, note='', value=None):
         self.name, self.build, self.spaces, self.kind = name, build, spaces, kind
         self.classes, self.pre, self.n, self.note = tuple(classes), pre, n, note
+        # value(ctx, sp, x): the documented value of the functional at x, computed independently of the derived-
+        # functional classes (from the base functionals and the space's own inner product)
+        self.value = value
 
 
 FRECIPES = []
@@ -57,14 +60,65 @@ def fby_name(name):
     raise KeyError(name)
 
 
+def creal(ctx, name, **kw):
+    """ctx.real, created once per run (so that a recipe and its value oracle share the symbol)."""
+    tab = ctx.__dict__.setdefault('_fsyms', {})
+    if name not in tab:
+        tab[name] = ctx.real(name, **kw)
+    return tab[name]
+
+
+def celem(ctx, sp, name):
+    tab = ctx.__dict__.setdefault('_fsyms', {})
+    if name not in tab:
+        tab[name] = ctx.element(sp, name)
+    return tab[name]
+
+
+def _one_inner(sp, y):
+    """<y, 1> in the space's own inner product (the weighted sum of the entries of y)."""
+    return y.inner(sp.one())
+
+
+def v_l1(sp, x):
+    return _one_inner(sp, abs(x) if not hasattr(x, 'ufuncs') else x.ufuncs.absolute())
+
+
+def v_l2sq(sp, x):
+    return x.inner(x)
+
+
+def v_huber(sp, x, gamma):
+    """sum_i w_i h(x_i),  h(t) = t^2/(2 gamma) for |t| <= gamma, |t| - gamma/2 otherwise."""
+    vals = []
+    for t in flat(x):
+        a = abs(t)
+        vals.append(t * t / (2 * gamma) if a <= gamma else a - gamma / 2.0)
+    return _one_inner(sp, sp.element(_arr(sp, vals)))
+
+
+def _arr(sp, vals):
+    import numpy as _np
+    from symnp.scalars import is_symscalar
+    if any(is_symscalar(v) for v in vals):
+        from symnp.sarray import wrap
+        a = _np.empty(len(vals), dtype=object)
+        for i, v in enumerate(vals):
+            a[i] = v
+        return wrap(a.reshape(sp.shape), sp.dtype)
+    return _np.array([float(v) for v in vals]).reshape(sp.shape)
+
+
 def positive(ctx, x):
     for v in flat(x):
         ctx.assume(v > 0)
 
 
 # --------------------------------------------------------------- built-ins
-frecipe('L1Norm', ALLS + ('pspace',), 'pl', [DEF + 'L1Norm', DEF + 'LpNorm'])(lambda ctx, sp: S.L1Norm(sp))
-frecipe('L2NormSquared', ALLS + ('pspace',), 'pl', [DEF + 'L2NormSquared'])(lambda ctx, sp: S.L2NormSquared(sp))
+frecipe('L1Norm', ALLS + ('pspace',), 'pl', [DEF + 'L1Norm', DEF + 'LpNorm'],
+        value=lambda ctx, sp, x: v_l1(sp, x) if not hasattr(sp, 'spaces') else None)(lambda ctx, sp: S.L1Norm(sp))
+frecipe('L2NormSquared', ALLS + ('pspace',), 'pl', [DEF + 'L2NormSquared'],
+        value=lambda ctx, sp, x: v_l2sq(sp, x))(lambda ctx, sp: S.L2NormSquared(sp))
 frecipe('L2Norm', ALLS, 'sqrt', [DEF + 'L2Norm', DEF + 'LpNorm'])(lambda ctx, sp: S.L2Norm(sp))
 frecipe('LinfNorm', ('rn', 'discr'), 'pl', [DEF + 'LpNorm'])(lambda ctx, sp: S.LpNorm(sp, float('inf')))
 frecipe('GroupL1Norm', ('pspace', 'dpspace'), 'sqrt', [DEF + 'GroupL1Norm'])(lambda ctx, sp: S.GroupL1Norm(sp))
@@ -77,7 +131,8 @@ frecipe('IndicatorLpUnitBall/2', ALLS, 'ind', [DEF + 'IndicatorLpUnitBall'])(
     lambda ctx, sp: S.IndicatorLpUnitBall(sp, 2))
 frecipe('IndicatorLpUnitBall/1', ('rn',), 'ind', [DEF + 'IndicatorLpUnitBall'])(
     lambda ctx, sp: S.IndicatorLpUnitBall(sp, 1))
-frecipe('Constant', ALLS, 'pl', [DEF + 'ConstantFunctional'])(lambda ctx, sp: S.ConstantFunctional(sp, ctx.real('c0')))
+frecipe('Constant', ALLS, 'pl', [DEF + 'ConstantFunctional'], value=lambda ctx, sp, x: creal(ctx, 'c0'))(
+    lambda ctx, sp: S.ConstantFunctional(sp, creal(ctx, 'c0')))
 frecipe('Zero', ('rn', 'discr'), 'pl', [DEF + 'ZeroFunctional'])(lambda ctx, sp: S.ZeroFunctional(sp))
 frecipe('Scaling', ('field',), 'pl', [DEF + 'ScalingFunctional'])(
     lambda ctx, sp: S.ScalingFunctional(odl.RealNumbers(), ctx.real('c0')))
@@ -110,15 +165,20 @@ frecipe('SeparableSum/L1+L2sq', ('rn', 'discr'), 'pl', [DEF + 'SeparableSum'], n
     lambda ctx, sp: S.SeparableSum(S.L1Norm(sp), S.L2NormSquared(sp)))
 frecipe('SeparableSum/power', ('rn',), 'pl', [DEF + 'SeparableSum'], n=1)(
     lambda ctx, sp: S.SeparableSum(S.L1Norm(sp), 2))
-frecipe('QuadraticForm/op+vec', ('rn',), 'pl', [DEF + 'QuadraticForm'])(
+frecipe('QuadraticForm/op+vec', ('rn',), 'pl', [DEF + 'QuadraticForm'],
+        value=lambda ctx, sp, x: x.inner(odl.MatrixOperator(np.array([[2.0, 0.5], [0.5, 1.0]]), domain=sp, range=sp)(x))
+        + x.inner(sp.element([1.0, -2.0])) + 0.5)(
     lambda ctx, sp: S.QuadraticForm(
         operator=odl.MatrixOperator(np.array([[2.0, 0.5], [0.5, 1.0]]), domain=sp, range=sp),
         vector=sp.element([1.0, -2.0]), constant=0.5))
-frecipe('QuadraticForm/vec-only', ('rn',), 'pl', [DEF + 'QuadraticForm'])(
-    lambda ctx, sp: S.QuadraticForm(vector=sp.element([1.0, -2.0]), constant=ctx.real('c0')))
-frecipe('QuadraticForm/scaling-op', ('rn', 'discr'), 'pl', [DEF + 'QuadraticForm'])(
+frecipe('QuadraticForm/vec-only', ('rn',), 'pl', [DEF + 'QuadraticForm'],
+        value=lambda ctx, sp, x: x.inner(sp.element([1.0, -2.0])) + creal(ctx, 'c0'))(
+    lambda ctx, sp: S.QuadraticForm(vector=sp.element([1.0, -2.0]), constant=creal(ctx, 'c0')))
+frecipe('QuadraticForm/scaling-op', ('rn', 'discr'), 'pl', [DEF + 'QuadraticForm'],
+        value=lambda ctx, sp, x: 3.0 * x.inner(x) + x.inner(sp.one()))(
     lambda ctx, sp: S.QuadraticForm(operator=odl.ScalingOperator(sp, 3.0), vector=sp.one()))
-frecipe('Huber', ALLS, 'pl', [DEF + 'Huber'])(lambda ctx, sp: S.Huber(sp, gamma=0.5))
+frecipe('Huber', ALLS, 'pl', [DEF + 'Huber'], value=lambda ctx, sp, x: v_huber(sp, x, 0.5))(
+    lambda ctx, sp: S.Huber(sp, gamma=0.5))
 frecipe('Huber/pspace', ('pspace', 'wpspace', 'cpspace'), 'sqrt', [DEF + 'Huber'])(lambda ctx, sp: S.Huber(sp, gamma=0.5))
 frecipe('GroupL1Norm/weighted', ('wpspace', 'cpspace'), 'sqrt', [DEF + 'GroupL1Norm'])(lambda ctx, sp: S.GroupL1Norm(sp))
 frecipe('L2NormSquared/wpspace', ('wpspace', 'cpspace'), 'pl', [DEF + 'L2NormSquared'])(lambda ctx, sp: S.L2NormSquared(sp))
@@ -132,23 +192,69 @@ frecipe('MoreauEnvelope/L1', ('rn', 'discr'), 'pl', [DEF + 'MoreauEnvelope'], n=
     lambda ctx, sp: S.MoreauEnvelope(S.L1Norm(sp), sigma=0.5))
 frecipe('Rosenbrock', ('rn',), 'pl', ['odl.solvers.functional.example_funcs.RosenbrockFunctional'])(
     lambda ctx, sp: S.RosenbrockFunctional(sp))
+frecipe('Rosenbrock/n=3/scale=2', ('rn',), 'pl', ['odl.solvers.functional.example_funcs.RosenbrockFunctional'], n=3)(
+    lambda ctx, sp: S.RosenbrockFunctional(sp, scale=2.0))
+frecipe('Rosenbrock/n=4/scale=0.5', ('rn',), 'pl', ['odl.solvers.functional.example_funcs.RosenbrockFunctional'], n=4)(
+    lambda ctx, sp: S.RosenbrockFunctional(sp, scale=0.5))
 
 # --------------------------------------------------------- derived functionals
-frecipe('derived/2*L1', ALLS, 'pl', [FUN + 'FunctionalLeftScalarMult'], n=1)(lambda ctx, sp: 2.0 * S.L1Norm(sp))
-frecipe('derived/a*L1', ('rn',), 'pl', [FUN + 'FunctionalLeftScalarMult'], n=1)(
-    lambda ctx, sp: ctx.real('c0', pos=True) * S.L1Norm(sp))
-frecipe('derived/a*L2sq', ('rn', 'discr'), 'pl', [FUN + 'FunctionalLeftScalarMult'])(
-    lambda ctx, sp: ctx.real('c0', pos=True) * S.L2NormSquared(sp))
-frecipe('derived/(-3)*L2sq', ('rn', 'discr'), 'pl', [FUN + 'FunctionalLeftScalarMult'])(
+frecipe('derived/2*L1', ALLS, 'pl', [FUN + 'FunctionalLeftScalarMult'], n=1,
+        value=lambda ctx, sp, x: 2.0 * v_l1(sp, x))(lambda ctx, sp: 2.0 * S.L1Norm(sp))
+frecipe('derived/a*L1', ('rn',), 'pl', [FUN + 'FunctionalLeftScalarMult'], n=1,
+        value=lambda ctx, sp, x: creal(ctx, 'c0', pos=True) * v_l1(sp, x))(
+    lambda ctx, sp: creal(ctx, 'c0', pos=True) * S.L1Norm(sp))
+frecipe('derived/a*L2sq', ('rn', 'discr'), 'pl', [FUN + 'FunctionalLeftScalarMult'],
+        value=lambda ctx, sp, x: creal(ctx, 'c0', pos=True) * v_l2sq(sp, x))(
+    lambda ctx, sp: creal(ctx, 'c0', pos=True) * S.L2NormSquared(sp))
+frecipe('derived/(-3)*L2sq', ('rn', 'discr'), 'pl', [FUN + 'FunctionalLeftScalarMult'],
+        value=lambda ctx, sp, x: -3.0 * v_l2sq(sp, x))(
     lambda ctx, sp: (-3.0) * S.L2NormSquared(sp))
-frecipe('derived/L2sq-Huber', ('rn',), 'pl', [FUN + 'FunctionalSum'], n=1)(
+frecipe('derived/L2sq-Huber', ('rn',), 'pl', [FUN + 'FunctionalSum'], n=1,
+        value=lambda ctx, sp, x: v_l2sq(sp, x) - v_huber(sp, x, 0.5))(
     lambda ctx, sp: S.L2NormSquared(sp) - S.Huber(sp, 0.5))
-frecipe('derived/a*Huber/any-sign', ('rn',), 'pl', [FUN + 'FunctionalLeftScalarMult'], n=1)(
-    lambda ctx, sp: ctx.real('c0', nonzero=True) * S.Huber(sp, 0.5))
-frecipe('derived/L1*2', ALLS, 'pl', [FUN + 'FunctionalRightScalarMult'], n=1)(lambda ctx, sp: S.L1Norm(sp) * 2.0)
-frecipe('derived/L2sq*a', ('rn', 'discr'), 'pl', [FUN + 'FunctionalRightScalarMult'])(
-    lambda ctx, sp: S.L2NormSquared(sp) * ctx.real('c0', nonzero=True))
-frecipe('derived/Huber*(-2)', ('rn',), 'pl', [FUN + 'FunctionalRightScalarMult'], n=1)(
+frecipe('derived/a*Huber/any-sign', ('rn',), 'pl', [FUN + 'FunctionalLeftScalarMult'], n=1,
+        value=lambda ctx, sp, x: creal(ctx, 'c0', nonzero=True) * v_huber(sp, x, 0.5))(
+    lambda ctx, sp: creal(ctx, 'c0', nonzero=True) * S.Huber(sp, 0.5))
+# nested scalings (merged internally into one factor), differences and negations of scaled functionals
+frecipe('derived/2*(3*L2sq)', ('rn', 'discr'), 'pl', [FUN + 'FunctionalLeftScalarMult'],
+        value=lambda ctx, sp, x: 6.0 * v_l2sq(sp, x))(lambda ctx, sp: 2.0 * (3.0 * S.L2NormSquared(sp)))
+frecipe('derived/a*(b*L2sq)', ('rn',), 'pl', [FUN + 'FunctionalLeftScalarMult'],
+        value=lambda ctx, sp, x: creal(ctx, 'c0', nonzero=True) * creal(ctx, 'c1', nonzero=True) * v_l2sq(sp, x))(
+    lambda ctx, sp: creal(ctx, 'c0', nonzero=True) * (creal(ctx, 'c1', nonzero=True) * S.L2NormSquared(sp)))
+frecipe('derived/0.5*(4*Huber)', ('rn',), 'pl', [FUN + 'FunctionalLeftScalarMult'], n=1,
+        value=lambda ctx, sp, x: 2.0 * v_huber(sp, x, 0.5))(lambda ctx, sp: 0.5 * (4.0 * S.Huber(sp, 0.5)))
+frecipe('derived/L2sq-3*Huber', ('rn',), 'pl', [FUN + 'FunctionalSum'], n=1,
+        value=lambda ctx, sp, x: v_l2sq(sp, x) - 3.0 * v_huber(sp, x, 0.5))(
+    lambda ctx, sp: S.L2NormSquared(sp) - 3.0 * S.Huber(sp, 0.5))
+frecipe('derived/-(3*L2sq)', ('rn',), 'pl', [FUN + 'FunctionalLeftScalarMult'],
+        value=lambda ctx, sp, x: -3.0 * v_l2sq(sp, x))(lambda ctx, sp: -(3.0 * S.L2NormSquared(sp)))
+frecipe('derived/(L2sq*2)*3', ('rn', 'discr'), 'pl', [FUN + 'FunctionalRightScalarMult'],
+        value=lambda ctx, sp, x: 36.0 * v_l2sq(sp, x))(lambda ctx, sp: (S.L2NormSquared(sp) * 2.0) * 3.0)
+frecipe('derived/(L1.translated*a)*b', ('rn',), 'pl', [FUN + 'FunctionalRightScalarMult'], n=1,
+        value=lambda ctx, sp, x: v_l1(sp, creal(ctx, 'c0', nonzero=True) * creal(ctx, 'c1', nonzero=True) * x
+                                      - sp.element([1.5][:sp.size])))(
+    lambda ctx, sp: (S.L1Norm(sp).translated(sp.element([1.5][:sp.size])) * creal(ctx, 'c0', nonzero=True))
+    * creal(ctx, 'c1', nonzero=True))
+frecipe('derived/2*(L2sq*3)', ('rn',), 'pl', [FUN + 'FunctionalLeftScalarMult'],
+        value=lambda ctx, sp, x: 18.0 * v_l2sq(sp, x))(lambda ctx, sp: 2.0 * (S.L2NormSquared(sp) * 3.0))
+frecipe('derived/QuadraticForm(vec,const)*s', ('rn',), 'pl', [FUN + 'FunctionalRightScalarMult'],
+        value=lambda ctx, sp, x: creal(ctx, 'c1', nonzero=True) * x.inner(sp.element([1.0, -2.0])) + creal(ctx, 'c0'))(
+    lambda ctx, sp: S.QuadraticForm(vector=sp.element([1.0, -2.0]), constant=creal(ctx, 'c0'))
+    * creal(ctx, 'c1', nonzero=True))
+frecipe('derived/s*QuadraticForm(vec,const)', ('rn',), 'pl', [FUN + 'FunctionalLeftScalarMult'],
+        value=lambda ctx, sp, x: creal(ctx, 'c1', nonzero=True) * (x.inner(sp.element([1.0, -2.0])) + creal(ctx, 'c0')))(
+    lambda ctx, sp: creal(ctx, 'c1', nonzero=True)
+    * S.QuadraticForm(vector=sp.element([1.0, -2.0]), constant=creal(ctx, 'c0')))
+frecipe('derived/QuadraticForm(vec)*s', ('rn',), 'pl', [FUN + 'FunctionalRightScalarMult'],
+        value=lambda ctx, sp, x: creal(ctx, 'c1', nonzero=True) * x.inner(sp.element([1.0, -2.0])))(
+    lambda ctx, sp: S.QuadraticForm(vector=sp.element([1.0, -2.0])) * creal(ctx, 'c1', nonzero=True))
+frecipe('derived/L1*2', ALLS, 'pl', [FUN + 'FunctionalRightScalarMult'], n=1,
+        value=lambda ctx, sp, x: v_l1(sp, 2.0 * x))(lambda ctx, sp: S.L1Norm(sp) * 2.0)
+frecipe('derived/L2sq*a', ('rn', 'discr'), 'pl', [FUN + 'FunctionalRightScalarMult'],
+        value=lambda ctx, sp, x: v_l2sq(sp, creal(ctx, 'c0', nonzero=True) * x))(
+    lambda ctx, sp: S.L2NormSquared(sp) * creal(ctx, 'c0', nonzero=True))
+frecipe('derived/Huber*(-2)', ('rn',), 'pl', [FUN + 'FunctionalRightScalarMult'], n=1,
+        value=lambda ctx, sp, x: v_huber(sp, -2.0 * x, 0.5))(
     lambda ctx, sp: S.Huber(sp, 0.5) * (-2.0))
 frecipe('derived/Nonneg*(-1)', ('rn', 'discr'), 'ind', [FUN + 'FunctionalRightScalarMult'], n=1)(
     lambda ctx, sp: S.IndicatorNonnegativity(sp) * (-1.0))
@@ -156,23 +262,31 @@ frecipe('derived/Box*(-2)', ('rn',), 'ind', [FUN + 'FunctionalRightScalarMult'],
     lambda ctx, sp: S.IndicatorBox(sp, -1, 2) * (-2.0))
 frecipe('derived/L1.translated*(-1)', ('rn',), 'pl', [FUN + 'FunctionalRightScalarMult'], n=1)(
     lambda ctx, sp: S.L1Norm(sp).translated(sp.element([1.5][:sp.size])) * (-1.0))
-frecipe('derived/L1.translated*a', ('rn',), 'pl', [FUN + 'FunctionalRightScalarMult'], n=1)(
-    lambda ctx, sp: S.L1Norm(sp).translated(sp.element([1.5][:sp.size])) * ctx.real('c0', nonzero=True))
-frecipe('derived/L1.translated', ALLS, 'pl', [FUN + 'FunctionalTranslation'], n=1)(
-    lambda ctx, sp: S.L1Norm(sp).translated(ctx.element(sp, 't')))
-frecipe('derived/L2sq.translated', ('rn', 'discr'), 'pl', [FUN + 'FunctionalTranslation'])(
-    lambda ctx, sp: S.L2NormSquared(sp).translated(ctx.element(sp, 't')))
+frecipe('derived/L1.translated*a', ('rn',), 'pl', [FUN + 'FunctionalRightScalarMult'], n=1,
+        value=lambda ctx, sp, x: v_l1(sp, creal(ctx, 'c0', nonzero=True) * x - sp.element([1.5][:sp.size])))(
+    lambda ctx, sp: S.L1Norm(sp).translated(sp.element([1.5][:sp.size])) * creal(ctx, 'c0', nonzero=True))
+frecipe('derived/L1.translated', ALLS, 'pl', [FUN + 'FunctionalTranslation'], n=1,
+        value=lambda ctx, sp, x: v_l1(sp, x - celem(ctx, sp, 't')))(
+    lambda ctx, sp: S.L1Norm(sp).translated(celem(ctx, sp, 't')))
+frecipe('derived/L2sq.translated', ('rn', 'discr'), 'pl', [FUN + 'FunctionalTranslation'],
+        value=lambda ctx, sp, x: v_l2sq(sp, x - celem(ctx, sp, 't')))(
+    lambda ctx, sp: S.L2NormSquared(sp).translated(celem(ctx, sp, 't')))
 frecipe('derived/Box.translated', ('rn',), 'ind', [FUN + 'FunctionalTranslation'], n=1)(
     lambda ctx, sp: S.IndicatorBox(sp, -1, 2).translated(ctx.element(sp, 't')))
-frecipe('derived/L1+c', ('rn', 'discr'), 'pl', [FUN + 'FunctionalScalarSum'], n=1)(
-    lambda ctx, sp: S.L1Norm(sp) + ctx.real('c0'))
-frecipe('derived/L2sq+L1', ('rn', 'discr'), 'pl', [FUN + 'FunctionalSum'], n=1)(
+frecipe('derived/L1+c', ('rn', 'discr'), 'pl', [FUN + 'FunctionalScalarSum'], n=1,
+        value=lambda ctx, sp, x: v_l1(sp, x) + creal(ctx, 'c0'))(
+    lambda ctx, sp: S.L1Norm(sp) + creal(ctx, 'c0'))
+frecipe('derived/L2sq+L1', ('rn', 'discr'), 'pl', [FUN + 'FunctionalSum'], n=1,
+        value=lambda ctx, sp, x: v_l2sq(sp, x) + v_l1(sp, x))(
     lambda ctx, sp: S.L2NormSquared(sp) + S.L1Norm(sp))
-frecipe('derived/L2sq+Huber', ('rn',), 'pl', [FUN + 'FunctionalSum'], n=1)(
+frecipe('derived/L2sq+Huber', ('rn',), 'pl', [FUN + 'FunctionalSum'], n=1,
+        value=lambda ctx, sp, x: v_l2sq(sp, x) + v_huber(sp, x, 0.5))(
     lambda ctx, sp: S.L2NormSquared(sp) + S.Huber(sp, 0.5))
-frecipe('derived/L2sq*v', ('rn', 'discr'), 'pl', [FUN + 'FunctionalRightVectorMult'])(
+frecipe('derived/L2sq*v', ('rn', 'discr'), 'pl', [FUN + 'FunctionalRightVectorMult'],
+        value=lambda ctx, sp, x: v_l2sq(sp, sp.element([2.0, -0.5][:sp.size]) * x))(
     lambda ctx, sp: S.L2NormSquared(sp) * sp.element([2.0, -0.5][:sp.size]))
-frecipe('derived/L1*v', ('rn',), 'pl', [FUN + 'FunctionalRightVectorMult'], n=1)(
+frecipe('derived/L1*v', ('rn',), 'pl', [FUN + 'FunctionalRightVectorMult'], n=1,
+        value=lambda ctx, sp, x: v_l1(sp, sp.element([2.0, -0.5][:sp.size]) * x))(
     lambda ctx, sp: S.L1Norm(sp) * sp.element([2.0, -0.5][:sp.size]))
 frecipe('derived/QuadraticForm*v', ('rn',), 'pl', [FUN + 'FunctionalRightVectorMult'])(
     lambda ctx, sp: S.QuadraticForm(
@@ -184,22 +298,28 @@ frecipe('derived/Rosenbrock*v', ('rn',), 'pl', [FUN + 'FunctionalRightVectorMult
     lambda ctx, sp: S.RosenbrockFunctional(sp) * ctx.element(sp, 't'))
 frecipe('derived/KL*v', ('rn',), 'trans', [FUN + 'FunctionalRightVectorMult'], pre=positive)(
     lambda ctx, sp: S.KullbackLeibler(sp, prior=sp.element([1.0, 2.0])) * sp.element([2.0, 0.5]))
-frecipe('derived/L2sq∘M', ('rn', 'arn'), 'pl', [FUN + 'FunctionalComp'])(
+frecipe('derived/L2sq∘M', ('rn', 'arn'), 'pl', [FUN + 'FunctionalComp'],
+        value=lambda ctx, sp, x: v_l2sq(sp, odl.MatrixOperator(np.array([[1.0, 2.0], [0.0, -1.0]]), domain=sp,
+                                                               range=sp)(x)))(
     lambda ctx, sp: S.L2NormSquared(sp) * odl.MatrixOperator(np.array([[1.0, 2.0], [0.0, -1.0]]), domain=sp, range=sp))
-frecipe('derived/L1∘scaling', ('rn', 'discr'), 'pl', [FUN + 'FunctionalComp'], n=1)(
+frecipe('derived/L1∘scaling', ('rn', 'discr'), 'pl', [FUN + 'FunctionalComp'], n=1,
+        value=lambda ctx, sp, x: v_l1(sp, 2.0 * x))(
     lambda ctx, sp: S.L1Norm(sp) * odl.ScalingOperator(sp, 2.0))
-frecipe('derived/quadpert(L1)', ('rn', 'discr'), 'pl', [FUN + 'FunctionalQuadraticPerturb'], n=1)(
+frecipe('derived/quadpert(L1)', ('rn', 'discr'), 'pl', [FUN + 'FunctionalQuadraticPerturb'], n=1,
+        value=lambda ctx, sp, x: v_l1(sp, x) + 0.5 * x.inner(x) + x.inner(sp.element([1.0, -1.0][:sp.size])) + 2.0)(
     lambda ctx, sp: S.FunctionalQuadraticPerturb(S.L1Norm(sp), quadratic_coeff=0.5,
                                                  linear_term=sp.element([1.0, -1.0][:sp.size]), constant=2.0))
-frecipe('derived/quadpert(L2sq)/linear-only', ('rn',), 'pl', [FUN + 'FunctionalQuadraticPerturb'])(
-    lambda ctx, sp: S.FunctionalQuadraticPerturb(S.L2NormSquared(sp), linear_term=ctx.element(sp, 't')))
+frecipe('derived/quadpert(L2sq)/linear-only', ('rn',), 'pl', [FUN + 'FunctionalQuadraticPerturb'],
+        value=lambda ctx, sp, x: v_l2sq(sp, x) + x.inner(celem(ctx, sp, 't')))(
+    lambda ctx, sp: S.FunctionalQuadraticPerturb(S.L2NormSquared(sp), linear_term=celem(ctx, sp, 't')))
 frecipe('derived/quadpert(Box)', ('rn',), 'pl', [FUN + 'FunctionalQuadraticPerturb'], n=1)(
     lambda ctx, sp: S.FunctionalQuadraticPerturb(S.IndicatorBox(sp, -1, 2), quadratic_coeff=1.5))
-frecipe('derived/product', ('rn',), 'pl', [FUN + 'FunctionalProduct'])(
+frecipe('derived/product', ('rn',), 'pl', [FUN + 'FunctionalProduct'],
+        value=lambda ctx, sp, x: v_l2sq(sp, x) * (x.inner(sp.element([1.0, -2.0])) + 1.0))(
     lambda ctx, sp: S.FunctionalProduct(S.L2NormSquared(sp), S.QuadraticForm(vector=sp.element([1.0, -2.0]),
                                                                             constant=1.0)))
 frecipe('derived/quotient', ('rn',), 'pl', [FUN + 'FunctionalQuotient'],
-        pre=None)(
+        pre=None, value=lambda ctx, sp, x: (x.inner(sp.element([1.0, -2.0])) + 1.0) / (v_l2sq(sp, x) + 1.0))(
     lambda ctx, sp: S.FunctionalQuotient(S.QuadraticForm(vector=sp.element([1.0, -2.0]), constant=1.0),
                                          S.L2NormSquared(sp) + 1.0))
 frecipe('derived/infconv(L2sq,L1)', ('rn',), 'pl', [FUN + 'InfimalConvolution'], n=1)(
